@@ -363,3 +363,21 @@ Proof.
   - split; [|vm_compute; repeat split; reflexivity].
     intros K. split; [constructor|]. apply coupled_start. vm_compute. reflexivity.
 Qed.
+
+(* the comparator of the correspondence stage (Model/ErrgroupCheck.v) on three scripts: what the model says the harness must
+   observe (finished goroutines, Wait's result, cause of the group context) after each operation *)
+From AM Require Import Model.ErrgroupCheck.
+Example C08_errgroup_check_three_workers :
+  model_obs [(false, Some 2); (false, None); (true, Some 0)] [ORel 1; OWait; ORel 2; ORel 0] =
+  [EObs 1 None None; EObs 1 None None; EObs 1 None None; EObs 3 (Some (Some 2)) (Some 2)].
+Proof. vm_compute. reflexivity. Qed.
+
+Example C08_errgroup_check_all_nil :
+  model_obs [(false, None); (false, None)] [ORel 0; ORel 1; OWait] =
+  [EObs 1 None None; EObs 2 None None; EObs 2 (Some None) (Some 0)].
+Proof. vm_compute. reflexivity. Qed.
+
+Example C08_errgroup_check_parent_first :
+  model_obs [(true, Some 0); (false, Some 3)] [ORel 0; OPar; OWait; ORel 1] =
+  [EObs 0 None None; EObs 1 None (Some 1); EObs 1 None (Some 1); EObs 2 (Some (Some 0)) (Some 1)].
+Proof. vm_compute. reflexivity. Qed.
